@@ -114,7 +114,7 @@ def oidcExplicitPopulate (code : Presented) (client : Client) : HP Bool := do
   | .req ar =>
     HP.guard (ar.grantedScopes.contains "openid") .misconfiguration
     HP.guard (client.grants.contains "authorization_code") .unauthorized_client
-    HP.guard (ar.sess.subject != "") .server_error
+    HP.guard (ar.sess.idSubject != "") .server_error
     expectOk (.deleteOIDC key) (fun _ => retErr .server_error)
     return true
   | r =>
@@ -266,7 +266,7 @@ def refreshH (cfg : Config) (now : Time) (q : RefreshReq) : HP Out := do
   expectOk .commitTx refreshStorageError
   -- OpenIDConnectRefreshHandler
   let idt := req.grantedScopes.contains "openid"
-  HP.guard (!(idt && req.sess.subject == "")) .server_error
+  HP.guard (!(idt && req.sess.idSubject == "")) .server_error
   return .tokens atk (some rt) idt (expiresIn req.sess now cfg.atLife) req.grantedScopes
 
 def refreshProg (cfg : Config) (now : Time) (q : RefreshReq) : Prog Out := (refreshH cfg now q).run
